@@ -529,6 +529,8 @@ pub struct SimOpts<'a> {
     pub snap_root: Option<&'a Path>,
     /// real-time watchdog for one quiescence wait
     pub watchdog: Duration,
+    /// more pool tasks than this = runaway (a file gets at most two passes, a directory one scan)
+    pub max_tasks: usize,
 }
 
 impl Default for SimOpts<'_> {
@@ -536,6 +538,7 @@ impl Default for SimOpts<'_> {
         SimOpts {
             snap_root: None,
             watchdog: Duration::from_secs(120),
+            max_tasks: 400,
         }
     }
 }
@@ -708,8 +711,16 @@ pub fn simulate(base: &Path, cfg: txtpp::Config, sched: &Sched, opts: &SimOpts) 
             }
         }
         let cap = 40 + 12 * st.tasks.len().max(1);
-        if steps - io_steps - idle_polls > cap {
+        if st.tasks.len() > opts.max_tasks {
+            hang = Some(format!(
+                "task cap exceeded: {} pool tasks spawned (limit {} for this project)",
+                st.tasks.len(),
+                opts.max_tasks
+            ));
+        } else if steps - io_steps - idle_polls > cap {
             hang = Some(format!("step cap {cap} exceeded with {} tasks", st.tasks.len()));
+        }
+        if hang.is_some() {
             st.aborting = true;
             sim.cv.notify_all();
             break;
